@@ -104,3 +104,11 @@ Theorem C03_record_nesting_guard : forall w,
   if (wire_nesting w <=? record_nesting_limit)%N then Some 0%N else None.
 Proof. exact record_nesting_guard. Qed.
 Print Assumptions C03_record_nesting_guard.
+
+(* The guard bounds the recursion depth itself: when uncounted levels (arrays, dictionary indirection)
+   come in runs of at most k (a property of the schema's type expressions), an accepted record never
+   has more than (k+1) * limit + k + 1 nested decoder calls. *)
+Theorem C03_accepted_height_bound : forall t lim k, runs_ok k (S k) t = true -> walk lim 0 t = Some 0%N ->
+  (vheight t <= (N.of_nat k + 1) * lim + N.of_nat k + 1)%N.
+Proof. exact accepted_height_bound. Qed.
+Print Assumptions C03_accepted_height_bound.
